@@ -5,7 +5,7 @@
 package main
 
 // Every function under contract in this package also serves the properties that depend on the whole package.
-//@ package-props C01
+//@ package-props C01 C12
 
 // The request text comes from -proto or from the file named by -proto_file, never both.
 //@ func protoRequestFromFlags
